@@ -55,6 +55,11 @@ def _launch(job, tier, scratch):
     ptimeout = meta.get("path_timeout") or d["path_timeout"]
     if isinstance(ptimeout, dict):
         ptimeout = ptimeout[tier]
+    if job["kind"] == "ch":
+        # The budgets in the harness files are sized for a machine that runs one check at a time; a budget only matters
+        # when a job does not finish (the verdict is then inconclusive), so it is scaled generously to stay robust when
+        # several checks share the cores.
+        timeout = timeout * float(os.environ.get("VK_TIMEOUT_SCALE", "3"))
     jd = os.path.join(scratch, job["function"])
     os.makedirs(jd, exist_ok=True)
     out = os.path.join(jd, "out.json")
@@ -69,7 +74,7 @@ def _launch(job, tier, scratch):
     p = subprocess.Popen(cmd, cwd=VERIF, env=env, stdout=log, stderr=subprocess.STDOUT,
                          start_new_session=True)
     job.update(proc=p, out=out, tickfile=tickfile, dir=jd, t0=time.time(),
-               wall_limit=(timeout * 4 + 180) if job["kind"] == "ch" else (timeout * 1.5 + 60), timeout=timeout, log=log)
+               wall_limit=(timeout * 1.5 + 300) if job["kind"] == "ch" else (timeout * 1.5 + 60), timeout=timeout, log=log)
 
 
 def _killpg(p):
